@@ -1,7 +1,7 @@
 (* Evaluation of the C18 model on harness-written cases (correspondence check). *)
 From Coq Require Import List NArith ZArith String Bool.
 From V.Base Require Import Hex.
-From V.C18 Require Import Model Ledger.
+From V.C18 Require Import Model Ledger Sites.
 Import ListNotations.
 Local Open Scope Z_scope.
 
@@ -21,6 +21,8 @@ Inductive case :=
 | CBind (pos dec : Z) (rawP rawD : string) (found : bool) (gotPos gotDec : Z)   (* AddERC20Binding(pos, dec); stored entries p, d; GetERC20Binding *)
 | CBindSys (is_sub : bool) (gotPos gotDec : Z)                                 (* GetERC20Binding("SYSTEM-RPG") *)
 | CFT (dstored slot op n : Z) (o : ftobs)                                      (* Get/Set/Add/SubFT on a coin bound with dstored decimals *)
+| CSite (s : string)                                                           (* one call site of the conversion functions found in the Go sources *)
+| CSiteCount (n : Z)
 | CConst (prec md pbase dec base : Z).         (* constants read from the Go source: ParseFloat(s, pbase, prec, md), defaultDecimal, baseNumber *)
 
 (* account database, ERC20-bound coins (Ledger.v) *)
@@ -63,6 +65,8 @@ Definition check (c : case) : bool :=
   | CBindSys is_sub gotPos gotDec =>
       let b := system_binding is_sub [] in (b_position b =? gotPos) && (b_decimal b =? gotDec)
   | CFT dstored slot op n o => check_ft dstored slot op n o
+  | CSite s => existsb (String.eqb s) covered_sites
+  | CSiteCount n => n =? Z.of_nat (List.length covered_sites)
   | CConst prec md pbase dec base =>
       (prec =? code_prec) && (md =? mode_code code_mode) && (pbase =? 10) && (dec =? default_decimal) && (base =? 10 ^ default_decimal)
   end.
